@@ -228,6 +228,17 @@ static std::vector<TruncBase> trunc_bases(uint64_t seed, std::vector<Format*> co
             }
     return out;
 }
+// a read region inside the w x h image of the valid base file, for a third of the plans of the entries that take one
+static void maybe_region(Rng& r, Json& p, std::string const& e, int w, int h)
+{
+    bool take = r.chance(1, 3);
+    int x = (int)r.below((unsigned)w), y = (int)r.below((unsigned)h);
+    int sw = (int)r.range(1, w - x), sh = (int)r.range(1, h - y);
+    if (!take || e == "info" || e == "scanline") return;
+    Json sb = Json::array();
+    sb.push(x); sb.push(y); sb.push(sw); sb.push(sh);
+    p.set("sub", sb);
+}
 static Json gen_trunc(uint64_t seed, long i, std::vector<TruncBase> const& bases, bool all_combos)
 {
     long rem = i;
@@ -254,6 +265,7 @@ static Json gen_trunc(uint64_t seed, long i, std::vector<TruncBase> const& bases
         p.set("sched", r.pick({"full", "full", "one", "half"}));
         p.set("bufsz", r.pick({-1, 0, 7, 4096}));
         p.set("showmany", r.pick({0, 1, -1}));
+        maybe_region(r, p, e, tb.w, tb.h);
         Json ops = Json::array(); Json o = Json::object(); o.set("f", "trunc"); o.set("n", (long long)n); ops.push(o);
         p.set("ops", ops);
         return p;
@@ -317,6 +329,7 @@ static Json gen_fields(uint64_t seed, long i, std::vector<TruncBase> const& base
             p.set("sched", r.pick({"full", "full", "one", "half"}));
             p.set("bufsz", r.pick({-1, 0, 7, 4096}));
             p.set("showmany", r.pick({0, 1, -1}));
+            maybe_region(r, p, e, tb.w, tb.h);
             Json ops = Json::array(); Json o = Json::object();
             o.set("f", "set"); o.set("field", fd.name); o.set("off", (long long)fd.off); o.set("width", fd.width); o.set("be", fd.be ? 1 : 0);
             o.set("val", bv.a[(size_t)rem]);
